@@ -13,9 +13,11 @@ use crate::{
       authentication_builtin::AuthenticationBuiltin, Authentication, AuthRequestMessageToken, HandshakeMessageToken,
       IdentityToken, ValidationOutcome,
     },
+    authentication::types::Sha256,
     config::DomainParticipantSecurityConfigFiles,
     types::{BinaryProperty, DataHolder, Property},
   },
+  serialization::to_vec,
   structure::guid::{EntityId, GuidPrefix, GUID},
 };
 
@@ -167,4 +169,60 @@ impl AuthParty {
       })
       .map_err(|e| format!("{e:?}"))
   }
+}
+
+/// What an active forger does who holds a private key and a certificate of its
+/// own (from whatever CA): the final message that answers `reply`, for the
+/// handshake the forger opened with `request`, signed with the key in
+/// `key_pem_path`.  The layout of the signed data is the one of DDS Security
+/// 1.1 table 51 (the same arrangement as in `process_handshake`); hashing,
+/// serialisation and signing are the crate's own primitives.
+pub fn forge_final(key_pem_path: &str, request: &Token, reply: &Token) -> Result<Token, String> {
+  let get = |t: &Token, n: &str| -> Result<Bytes, String> {
+    t.bin
+      .iter()
+      .find(|(k, _)| k == n)
+      .map(|(_, v)| Bytes::copy_from_slice(v))
+      .ok_or_else(|| format!("no {n}"))
+  };
+  let c_hash = |t: &Token| -> Result<Sha256, String> {
+    let props: Vec<BinaryProperty> = ["c.id", "c.perm", "c.pdata", "c.dsign_algo", "c.kagree_algo"]
+      .iter()
+      .map(|n| get(t, n).map(|v| BinaryProperty::with_propagate(n, v)))
+      .collect::<Result<_, _>>()?;
+    Ok(Sha256::hash(
+      &to_vec::<Vec<BinaryProperty>, byteorder::BigEndian>(&props).map_err(|e| format!("{e:?}"))?,
+    ))
+  };
+  let (hash_c1, hash_c2) = (c_hash(request)?, c_hash(reply)?);
+  let b = |h: &Sha256| Bytes::copy_from_slice(h.as_ref());
+  let signed: Vec<BinaryProperty> = vec![
+    BinaryProperty::with_propagate("hash_c1", b(&hash_c1)),
+    BinaryProperty::with_propagate("challenge1", get(request, "challenge1")?),
+    BinaryProperty::with_propagate("dh1", get(request, "dh1")?),
+    BinaryProperty::with_propagate("challenge2", get(reply, "challenge2")?),
+    BinaryProperty::with_propagate("dh2", get(reply, "dh2")?),
+    BinaryProperty::with_propagate("hash_c2", b(&hash_c2)),
+  ];
+  // the same two library calls as `security::private_key::PrivateKey::{from_pem, sign}`
+  use x509_certificate::{signing::InMemorySigningKeyPair, Signer};
+  let key = InMemorySigningKeyPair::from_pkcs8_pem(std::fs::read(key_pem_path).map_err(|e| format!("{e:?}"))?)
+    .map_err(|e| format!("{e:?}"))?;
+  let signature = key
+    .try_sign(&to_vec::<Vec<BinaryProperty>, byteorder::BigEndian>(&signed).map_err(|e| format!("{e:?}"))?)
+    .map_err(|e| format!("{e:?}"))?;
+  let signature: &[u8] = signature.as_ref();
+  Ok(Token {
+    class_id: "DDS:Auth:PKI-DH:1.0+Final".to_string(),
+    props: vec![],
+    bin: vec![
+      ("hash_c1".to_string(), hash_c1.as_ref().to_vec()),
+      ("dh1".to_string(), get(request, "dh1")?.to_vec()),
+      ("hash_c2".to_string(), hash_c2.as_ref().to_vec()),
+      ("dh2".to_string(), get(reply, "dh2")?.to_vec()),
+      ("challenge1".to_string(), get(request, "challenge1")?.to_vec()),
+      ("challenge2".to_string(), get(reply, "challenge2")?.to_vec()),
+      ("signature".to_string(), signature.to_vec()),
+    ],
+  })
 }
